@@ -133,6 +133,9 @@ type netPlan struct {
 	// error (a refused destination) while everything the peer sends still arrives
 	FailAt   time.Duration `json:"fail_at,omitempty"`
 	FailSide int           `json:"fail_side,omitempty"` // 0 A, 1 B, 2 both
+	// instants (µs after the start) at which second copies of set-up frames
+	// arrive: around the moments the two muxers are stopped
+	DupInitAtUs []int `json:"dup_init_at_us,omitempty"`
 }
 
 func genNet(rng *vh.Rand) netPlan {
@@ -178,6 +181,15 @@ func (n netPlan) policy(rng *vh.Rand, start time.Time) msgnet.Policy {
 		}
 		// a duplicating link: requests and responses of the tube set-up may
 		// arrive a second time much later (around or after the close / Stop)
+		if len(data) >= 2 && data[1]&3 != 0 && len(n.DupInitAtUs) > 0 && rng.Chance(0.5) {
+			out := []msgnet.Delivery{{Data: data}}
+			for _, at := range n.DupInitAtUs {
+				if d := time.Duration(at)*time.Microsecond - time.Since(start); d > 0 {
+					out = append(out, msgnet.Delivery{Data: data, Delay: d})
+				}
+			}
+			return out
+		}
 		if len(data) >= 2 && data[1]&3 != 0 && rng.Chance(0.3) {
 			return []msgnet.Delivery{{Data: data}, {Data: data, Delay: time.Duration(rng.Pick(1, 50, 400, 1500, 3000, 3500)) * time.Millisecond}}
 		}
@@ -291,6 +303,11 @@ func genProgram(rng *vh.Rand) program {
 		p.StopAfter = [2]int{100000 + rng.Intn(40000), 100000 + rng.Intn(40000)}
 		p.KeepAlive = true
 	}
+	if rng.Chance(0.3) {
+		for k := 1 + rng.Intn(4); k > 0; k-- {
+			p.Net.DupInitAtUs = append(p.Net.DupInitAtUs, max(1, p.StopAfter[rng.Intn(2)]*1000+rng.Pick(-500, -50, -1, 0, 0, 1, 20, 100, 300, 1000, 3000)))
+		}
+	}
 	p.DoubleStop = rng.Chance(0.3)
 	p.CloseDuringInit = rng.Chance(0.2)
 	p.Strength = rng.Pick(0, 20, 40, 60)
@@ -369,9 +386,15 @@ func dupAckThenClose(r *vh.Runner, c *vh.Case, i int) {
 	rng := vh.NewRand(r.Seed, "c16-dupack", i)
 	cfgTimeout := 1500 * time.Millisecond
 	bound := cfgTimeout + 13*time.Second
+	// in half of the cases the muxers' idle time-out is far away, so that only
+	// the tubes' own mechanisms can finish the close within the bound
+	muxTimeout := cfgTimeout
+	if i%2 == 1 {
+		muxTimeout = time.Hour
+	}
 	nw := msgnet.NewPair()
-	A := tubes.Client(nw.A, &tubes.Config{Timeout: cfgTimeout, Log: quietLog()})
-	B := tubes.Server(nw.B, &tubes.Config{Timeout: cfgTimeout, Log: quietLog()})
+	A := tubes.Client(nw.A, &tubes.Config{Timeout: muxTimeout, Log: quietLog()})
+	B := tubes.Server(nw.B, &tubes.Config{Timeout: muxTimeout, Log: quietLog()})
 	acc := make(chan tubes.Tube, 4)
 	go func() {
 		for {
@@ -426,7 +449,21 @@ func dupAckThenClose(r *vh.Runner, c *vh.Case, i int) {
 		fail("Tube.Close")
 		return
 	}
-	if !bub.Within(bub.Go(func() { a.WaitForClose(); b.WaitForClose() }), bound) {
+	if muxTimeout > cfgTimeout {
+		// The end that saw the storm must be closed by its own tube's
+		// mechanisms. Its peer is not judged here: once this end has dropped
+		// the tube over the storm, the peer's FIN is never answered and only
+		// the muxer's idle time-out ends its wait - the storm is traffic no
+		// honest end produces, outside the loss patterns the property ranges over.
+		if !bub.Within(bub.Go(func() { a.WaitForClose() }), bound) {
+			fail("Tube.WaitForClose")
+			go func() { A.Stop(); B.Stop() }()
+			return
+		}
+		if !bub.Within(bub.Go(func() { b.WaitForClose() }), bound) {
+			r.Count("peer_of_the_stormed_end_waits_for_the_idle_timeout", 1)
+		}
+	} else if !bub.Within(bub.Go(func() { a.WaitForClose(); b.WaitForClose() }), bound) {
 		fail("Tube.WaitForClose")
 		return
 	}
